@@ -8,6 +8,10 @@
 //!     comparison can observe — is a replayable decision.  The arena range of a run is recycled
 //!     by the next run iff nothing allocated in it is still live, so a run's addresses are a pure
 //!     function of its allocation sequence and its seed, in any process.
+//! S5  clocks: the libc symbol `clock_gettime` is defined here; simulated threads read a seeded
+//!     simulated clock (rate, skew, jumps) during a run.
+//! S6  machine size: the libc symbol `sched_getaffinity` is defined here; simulated threads see a
+//!     seeded number of CPUs during a run.
 
 use std::alloc::{GlobalAlloc, Layout, System};
 use std::cell::Cell;
@@ -57,6 +61,169 @@ pub unsafe extern "C" fn getrandom(buf: *mut libc::c_void, len: libc::size_t, _f
         i += n;
     }
     len as libc::ssize_t
+}
+
+// ---------------------------------------------------------------------------------------------
+// S5: clocks, S6: machine size
+// ---------------------------------------------------------------------------------------------
+//
+// geo reads no clock and never asks for the number of CPUs today (probes `clock_reads` and
+// `cpu_count_queries` stay at zero on the unchanged tree), but "a function of the input alone"
+// excludes both, and a time budget or an `available_parallelism()`-sized chunking is exactly the
+// kind of change that would break it.  So both are behind seams: the libc symbols
+// `clock_gettime` and `sched_getaffinity` are defined here.  On *simulated threads during a run*
+// they answer from a simulated clock (start, rate, skew and jumps drawn from the run's clock
+// seed; the reference is a clock that advances 1 ns per reading) and with a simulated CPU count;
+// everywhere else (harness, watchdogs, the pool stub's own threads before user code) they
+// forward to the kernel by raw syscall, so wall-clock budgets of the harness are unaffected.
+
+static ENV_ON: AtomicBool = AtomicBool::new(false);
+static CLOCK_SEED: AtomicU64 = AtomicU64::new(0);
+static CLOCK_RNG: AtomicU64 = AtomicU64::new(0);
+static CLOCK_MONO: AtomicU64 = AtomicU64::new(0);
+static CLOCK_REAL_OFF: AtomicU64 = AtomicU64::new(0);
+static CLOCK_REAL_BACK: AtomicU64 = AtomicU64::new(0);
+static CLOCK_READS: AtomicU64 = AtomicU64::new(0);
+static CLOCK_JUMPS: AtomicU64 = AtomicU64::new(0);
+static CPUS: AtomicUsize = AtomicUsize::new(1);
+static CPU_QUERIES: AtomicU64 = AtomicU64::new(0);
+
+fn splitmix(x: u64) -> u64 {
+    let mut z = x.wrapping_add(0x9E37_79B9_7F4A_7C15);
+    z = (z ^ (z >> 30)).wrapping_mul(0xBF58_476D_1CE4_E5B9);
+    z = (z ^ (z >> 27)).wrapping_mul(0x94D0_49BB_1331_11EB);
+    z ^ (z >> 31)
+}
+
+/// Starts the simulated environment of a run.  `clock_seed == 0` is the reference clock (starts
+/// at 1 s, +1 ns per reading, wall clock = 2001-09-09); otherwise the seed picks the start, the
+/// kind (slow machine: 1-20 ms per reading; jumpy: ~100 ns per reading with 1-100 s jumps on one
+/// reading in eight and a wall clock that may step backwards; coarse: the value changes on
+/// every 64th reading only) and every step.  `cpus == 0` is the reference machine (1 CPU).
+pub fn begin_env(clock_seed: u64, cpus: usize) {
+    CLOCK_SEED.store(clock_seed, Ordering::SeqCst);
+    CLOCK_RNG.store(splitmix(clock_seed ^ 0xc10c), Ordering::SeqCst);
+    let (mono, real_off) = if clock_seed == 0 {
+        (1_000_000_000u64, 1_000_000_000u64 * 1_000_000_000 - 1_000_000_000)
+    } else {
+        // up to ~400 days of uptime, wall clock anywhere in 2017..2049
+        (splitmix(clock_seed ^ 1) % (400 * 86_400 * 1_000_000_000), (1_500_000_000 + splitmix(clock_seed ^ 2) % 1_000_000_000) * 1_000_000_000)
+    };
+    CLOCK_MONO.store(mono, Ordering::SeqCst);
+    CLOCK_REAL_OFF.store(real_off, Ordering::SeqCst);
+    CLOCK_REAL_BACK.store(0, Ordering::SeqCst);
+    CLOCK_READS.store(0, Ordering::SeqCst);
+    CLOCK_JUMPS.store(0, Ordering::SeqCst);
+    CPUS.store(cpus.max(1), Ordering::SeqCst);
+    CPU_QUERIES.store(0, Ordering::SeqCst);
+    ENV_ON.store(true, Ordering::SeqCst);
+}
+
+pub fn end_env() {
+    ENV_ON.store(false, Ordering::SeqCst);
+}
+
+#[derive(Clone, Copy, Debug, Default)]
+pub struct EnvStats {
+    pub clock_reads: u64,
+    pub clock_jumps: u64,
+    pub cpu_queries: u64,
+}
+pub fn env_stats() -> EnvStats {
+    EnvStats { clock_reads: CLOCK_READS.load(Ordering::SeqCst), clock_jumps: CLOCK_JUMPS.load(Ordering::SeqCst), cpu_queries: CPU_QUERIES.load(Ordering::SeqCst) }
+}
+
+fn env_applies() -> bool {
+    ENV_ON.load(Ordering::Relaxed) && SIM_THREAD.with(|c| c.get())
+}
+
+/// one reading of the simulated clocks: (monotonic ns, wall-clock ns)
+fn sim_clock_read() -> (u64, u64) {
+    // only one simulated thread runs at a time (baton), so this sequence is a function of the run
+    let n = CLOCK_READS.fetch_add(1, Ordering::SeqCst);
+    let seed = CLOCK_SEED.load(Ordering::SeqCst);
+    let step = if seed == 0 {
+        1
+    } else {
+        let r = splitmix(CLOCK_RNG.fetch_add(0x9E37_79B9_7F4A_7C15, Ordering::SeqCst));
+        match seed % 3 {
+            0 => 1_000_000 + r % 19_000_000,
+            1 => {
+                if r % 8 == 0 {
+                    CLOCK_JUMPS.fetch_add(1, Ordering::SeqCst);
+                    if (r >> 8) % 4 == 0 {
+                        // the wall clock is stepped back (NTP) while the monotonic one jumps on
+                        CLOCK_REAL_BACK.fetch_add(1_000_000_000 + (r >> 16) % 3_600_000_000_000, Ordering::SeqCst);
+                    }
+                    1_000_000_000 + (r >> 16) % 99_000_000_000
+                } else {
+                    50 + r % 200
+                }
+            }
+            _ => {
+                if n % 64 == 63 {
+                    4_000_000
+                } else {
+                    0
+                }
+            }
+        }
+    };
+    let mono = CLOCK_MONO.fetch_add(step, Ordering::SeqCst) + step;
+    let real = (mono + CLOCK_REAL_OFF.load(Ordering::SeqCst)).saturating_sub(CLOCK_REAL_BACK.load(Ordering::SeqCst));
+    (mono, real)
+}
+
+/// Interposes libc's `clock_gettime` for the whole process (what `Instant::now` and
+/// `SystemTime::now` call).
+///
+/// # Safety
+/// `ts` must be valid for one `timespec` (the libc contract).
+#[no_mangle]
+pub unsafe extern "C" fn clock_gettime(clk: libc::clockid_t, ts: *mut libc::timespec) -> libc::c_int {
+    if !env_applies() {
+        let r = libc::syscall(libc::SYS_clock_gettime, clk as libc::c_long, ts);
+        return r as libc::c_int;
+    }
+    let (mono, real) = sim_clock_read();
+    let v = match clk {
+        libc::CLOCK_REALTIME | libc::CLOCK_REALTIME_COARSE | libc::CLOCK_TAI => real,
+        // CPU-time clocks: a fraction of the monotonic one
+        libc::CLOCK_PROCESS_CPUTIME_ID | libc::CLOCK_THREAD_CPUTIME_ID => mono / 2,
+        _ => mono,
+    };
+    (*ts).tv_sec = (v / 1_000_000_000) as libc::time_t;
+    (*ts).tv_nsec = (v % 1_000_000_000) as libc::c_long;
+    0
+}
+
+/// Interposes libc's `sched_getaffinity` (what `std::thread::available_parallelism` and the
+/// `num_cpus` crate count on Linux).
+///
+/// # Safety
+/// `mask` must be valid for `size` bytes (the libc contract).
+#[no_mangle]
+pub unsafe extern "C" fn sched_getaffinity(pid: libc::pid_t, size: libc::size_t, mask: *mut libc::cpu_set_t) -> libc::c_int {
+    if !env_applies() {
+        let r = libc::syscall(libc::SYS_sched_getaffinity, pid as libc::c_long, size, mask);
+        if r < 0 {
+            return -1;
+        }
+        // the raw call returns the number of bytes it wrote; the wrapper clears the rest
+        let wrote = r as usize;
+        if wrote < size {
+            std::ptr::write_bytes((mask as *mut u8).add(wrote), 0, size - wrote);
+        }
+        return 0;
+    }
+    CPU_QUERIES.fetch_add(1, Ordering::SeqCst);
+    std::ptr::write_bytes(mask as *mut u8, 0, size);
+    let n = CPUS.load(Ordering::SeqCst).min(size * 8);
+    let p = mask as *mut u8;
+    for i in 0..n {
+        *p.add(i / 8) |= 1 << (i % 8);
+    }
+    0
 }
 
 // ---------------------------------------------------------------------------------------------
